@@ -32,7 +32,7 @@ MAPPABLE = {(gen.TYPE_INDEX_BASE + dt, 0): R.width(dt) for dt in list(R.NUMERIC)
 
 def plan(tier, seed):
     n = 8
-    return [{"cases": 250 if tier == "quick" else 4000, "cs": seed * 100 + i} for i in range(n)]
+    return [{"cases": 250 if tier == "quick" else 12000, "cs": seed * 100 + i} for i in range(n)]
 
 
 def random_mapping(rng, n=None):
